@@ -268,8 +268,12 @@ def _shrink_table(cur, pos, fails):
 def run_batch(prop, base_seed, indices, sample_every):
     out = []
     for i in indices:
+        if procs.stop_requested():
+            break
         try:
             out.append(run_one(prop, base_seed, i, want_sample=(i % sample_every == 0)))
+            if out[-1].get("violation"):
+                procs.request_stop()
         except procs.HarnessTimeout as e:
             out.append({"i": i, "harness": "HARNESS-TIMEOUT", "detail": str(e)})
         except procs.HarnessError as e:
